@@ -62,6 +62,13 @@ Theorem C13_fields_recovered : forall flag m, wf_msg m ->
 Proof. exact (fields_recovered src_json_cfg C13_source_configuration_good). Qed.
 Print Assumptions C13_fields_recovered.
 
+(* and nothing else: the record has no member that is neither a built-in field nor an attribute of this message *)
+Theorem C13_nothing_else : forall flag m, wf_msg m ->
+  exists kv, parse_doc (json_format src_json_cfg flag m) = Some (JObj kv)
+    /\ forall k, In k (map fst kv) -> is_spec_name k = true \/ has_key k (mattrs m) = true.
+Proof. exact (record_has_nothing_else src_json_cfg C13_source_configuration_good). Qed.
+Print Assumptions C13_nothing_else.
+
 (* a value whose maps are already in QVariantMap form is recovered identically *)
 Theorem C13_canonical_value_unchanged : forall v, canonical v -> sort_keys v = v.
 Proof. exact sort_keys_canonical. Qed.
